@@ -319,35 +319,46 @@ def refRun : Ref → List Req → Ref × List (Option Resp)
 
 /-! ### the view C14 has of the cluster (for `Sync`)
 
-C14's state holds, per node and key, the bytes of a record / of a shard file.  `K` is one key type
-for both maps: a record is addressed by `⟨user, collection, ""⟩`, a shard by `⟨user, collection, id⟩`.
-Content is a list of symbols; the encodings below are injective (`Lemmas.lean`), and a shard file is
-never empty (it starts with a header symbol — bbolt files are never empty). -/
+C14's state holds, per node and key, the bytes of a record / of a shard file.  `K := SKey` is one
+key type for both maps: a record is addressed by `⟨user, collection, ""⟩` (user ids are
+delimiter-free), a shard by `⟨user, collection, id⟩`.  Content is a list of symbols: `Enc` is how a
+record / the points of a shard are written (msgpack / the bbolt file); the theorems hold for every
+injective encoding under which a shard file is never empty (bbolt files never are); the encodings
+below are what the driver uses. -/
+
+structure Enc where
+  ofRec : Rec → C14.Content
+  ofPts : List Pt → C14.Content
 
 def encInt (i : Int) : Nat := if i < 0 then 2 * (-i).toNat + 1 else 2 * i.toNat
-def encStr (s : String) : List Nat := s.length :: s.toList.map (·.toNat)
+/-- bijective base-256 numeration of a byte string -/
+def natOfBytes (b : Bytes) : Nat := b.foldr (fun x acc => acc * 256 + x.toNat + 1) 0
+def natOfStr (s : String) : Nat := natOfBytes (s.toUTF8.data.toList.map fun b => BitVec.ofNat 8 b.toNat)
 
-def encRec (rec : Rec) : C14.Content :=
-  rec.user.length :: rec.user.map (·.toNat) ++ rec.coll.length :: rec.coll.map (·.toNat) ++
-    encInt rec.quota :: rec.shards.length :: rec.shards.flatMap encStr
+def stdEnc : Enc where
+  ofRec := fun rec => natOfBytes rec.user :: natOfBytes rec.coll :: encInt rec.quota :: rec.shards.map natOfStr
+  ofPts := fun P => 7 :: P.flatMap fun p => [p.1, encInt p.2]
 
-def encPts (P : List Pt) : C14.Content := 7 :: P.flatMap fun p => [p.1, encInt p.2]
+/-- the node database as C14's record map: the record stored under the key of `⟨u, c, ""⟩` -/
+def viewRecs (enc : Enc) (c : Cluster) (n : Name) (k : SKey) : Option C14.Content :=
+  if k.sid = "" ∧ C16.slash ∉ k.user then (dbGet (c.db n) (C16.key k.user k.coll)).map enc.ofRec else none
 
-def recKey (rec : Rec) : SKey := ⟨rec.user, rec.coll, ""⟩
-
-/-- the node database as C14's record map: the record stored under the key of `⟨u, c, _⟩` -/
-def viewRecs (c : Cluster) (n : Name) (k : SKey) : Option C14.Content :=
-  if k.sid = "" then (dbGet (c.db n) (C16.key k.user k.coll)).map encRec else none
-
-def viewFiles (c : Cluster) (n : Name) (k : SKey) : Option C14.Content := (c.sh n k).map encPts
+def viewFiles (enc : Enc) (c : Cluster) (n : Name) (k : SKey) : Option C14.Content := (c.sh n k).map enc.ofPts
 
 /-- the cluster at rest as a C14 state: nothing in flight, no node failed -/
-def syncView (c : Cluster) : C14.St Name SKey :=
-  { recs := viewRecs c, files := viewFiles c, rconf := fun _ _ => false, fph := fun _ _ => .idle, failed := fun _ => false }
+def syncView (enc : Enc) (c : Cluster) : C14.St Name SKey :=
+  { recs := viewRecs enc c, files := viewFiles enc c, rconf := fun _ _ => false, fph := fun _ _ => .idle, failed := fun _ => false }
 
 /-- C14's configuration for the NEW server list `S`: records routed by the user id, shards by the
-shard id, both through C13's `owner` -/
+shard id, both through C13's `owner`; the repaired (truncating) receiver -/
 def syncCfg (h : Bytes → Nat) (S : List Name) (up : Name → Bool) (cs : Nat) (sum : C14.Content → Nat) : C14.Cfg Name SKey :=
   { owner := fun k => routeOf h S k.user, fowner := fun k => routeOf h S (sidKey k.sid), up := up, cs := cs, trunc0 := true, sum := sum }
+
+/-- what `Sync` leaves behind, as a function of the cluster (the driver's Sync; `Props.lean` relates
+it to C14's `round`): every record at the new owner of its user, every shard directory at the new
+owner of its id, nothing anywhere else.  `nodes`: the servers that were started. -/
+def relocate (r' : Bytes → Name) (nodes : List Name) (c : Cluster) : Cluster :=
+  { db := fun n => (nodes.flatMap c.db).filter fun e => decide (r' e.2.user = n),
+    sh := fun n k => if n = r' (sidKey k.sid) then nodes.findSome? (fun n' => c.sh n' k) else none }
 
 end Sema.ClusterCompose
